@@ -210,6 +210,7 @@ std::string plan_to_text(const Plan &p) {
       << "\napi_world " << (p.api_world ? 1 : 0) << "\ntwin " << (p.twin ? 1 : 0) << "\nauto_tick " << (p.auto_tick ? 1 : 0) << "\nisolate " << (p.isolate ? 1 : 0) << "\n";
     s << "expect_class " << (p.expect_class.empty() ? "-" : p.expect_class) << "\nexpect_hash " << p.expect_hash << "\n";
     if (!p.abi.empty()) s << "abi " << p.abi << "\n";
+    if (p.call_us) s << "call_us " << p.call_us << "\n";
     for (auto &n : p.nodes)
         s << "node glue=" << n.glue << " mtu=" << n.mtu << " attr_seed=" << n.attr_seed << " wifi=" << (n.wifi ? 1 : 0) << " failmask=" << n.failmask
           << " esp32=" << (n.side_esp32 ? 1 : 0) << " classifier=" << (n.side_classifier ? 1 : 0) << " rxfill=" << (int)n.rxfill
@@ -256,6 +257,7 @@ bool plan_from_text(const std::string &text, Plan &p, std::string &err) {
         else if (key == "expect_class") { ls >> p.expect_class; if (p.expect_class == "-") p.expect_class.clear(); }
         else if (key == "expect_hash") ls >> p.expect_hash;
         else if (key == "abi") ls >> p.abi;
+        else if (key == "call_us") ls >> p.call_us;
         else if (key == "node") {
             auto m = kvs(ls);
             NodeCfg n;
@@ -542,8 +544,10 @@ int lltd_port_get_wifi_phy_medium(void *ctx, uint32_t *out) {
     *out = n->attr.phy; return 0;
 }
 static char g_logbuf[2048];
-void lltd_port_log_debug(const char *fmt, ...) { va_list ap; va_start(ap, fmt); vsnprintf(g_logbuf, sizeof g_logbuf, fmt, ap); va_end(ap); }
-void lltd_port_log_warning(const char *fmt, ...) { va_list ap; va_start(ap, fmt); vsnprintf(g_logbuf, sizeof g_logbuf, fmt, ap); va_end(ap); }
+// writing a log line takes time on a real port; in API walks (one core call per operation, clock read at its entry) a plan may charge it
+static inline void log_cost() { if (g_w && g_w->plan.api_world && g_w->plan.call_us) { g_w->cost_us += g_w->plan.call_us; g_w->sleep_accum += g_w->cost_us / 1000; g_w->cost_us %= 1000; } }
+void lltd_port_log_debug(const char *fmt, ...) { va_list ap; va_start(ap, fmt); vsnprintf(g_logbuf, sizeof g_logbuf, fmt, ap); va_end(ap); log_cost(); }
+void lltd_port_log_warning(const char *fmt, ...) { va_list ap; va_start(ap, fmt); vsnprintf(g_logbuf, sizeof g_logbuf, fmt, ap); va_end(ap); log_cost(); }
 
 // ---- simulator services for glue.c
 void sim_periodic_hello(void *iface_ctx, const void *frame, size_t len) {
@@ -1264,6 +1268,7 @@ void World::exec_api(int i, const Op &op) {
     }
     glue_view_get(n.glue, &after);
     cur = nullptr;
+    if (plan.call_us && sleep_accum) { now += sleep_accum; sleep_accum = 0; } // the time the call itself took has passed
     log.u64((uint64_t)ret); log.u64((uint64_t)after.mapping_state * 16 + (uint64_t)after.session_state); log.u64(after.band_Ni); log.u64((uint64_t)after.table_count);
     abstract.byte((uint8_t)op.kind); abstract.byte((uint8_t)after.mapping_state); abstract.byte((uint8_t)after.session_state); abstract.byte((uint8_t)after.table_count);
     for (auto m : monitors) m->on_api(*this, i, op, before, after, ret);
